@@ -100,6 +100,9 @@ def judge(run, case):
 
 
 def run_monitor(case):
+    if case.get("bigids") and case["f2c"] is None:
+        # flow ids are arbitrary integers (beyond CPython's small-int cache): 1000, 1001, ...
+        case = dict(case, table=[[1000 + f, v] for f, v in case["table"]], wl=[[w[0], 1000 + w[1]] + list(w[2:]) for w in case["wl"]])
     script = list(case["sample_gaps"])
 
     def dist():
@@ -157,6 +160,8 @@ def run_monitor(case):
     if case.get("probe_all") and times and any(min(F(r.now) for r in ins if r.snap[1] == f) > max(times[0], F(case["probe_from"]))
                                                and F(case["probe_from"]) > times[0] for f in {r.snap[1] for r in ins}):
         classes.add("flow first sampled, then polled, then sends its first packet")
+    if case.get("bigids") and case["f2c"] is None:
+        classes.add("flow ids beyond the small-integer cache")
     nt = "sample while a packet of the flow is in service" in classes and "sample with a queue" in classes
     return {"nontrivial": nt, "classes": sorted(classes)}
 
@@ -228,7 +233,7 @@ def monitor_strategy(tier):
     def build(k):
         return st.tuples(spec_strategy(k, tier, exact_only=True), gaps, st.booleans(), st.booleans(),
                          st.sampled_from([0, 1 / 8192, 1 / 1024, 1 / 16, 1 / 4, 1])).map(
-            lambda t: dict(t[0], sample_gaps=t[1], included=t[2], probe_all=t[3], probe_from=t[4]))
+            lambda t: dict(t[0], sample_gaps=t[1], included=t[2], probe_all=t[3], probe_from=t[4], bigids=bool(len(t[1]) % 2)))
     return kind.flatmap(build)
 
 
@@ -267,7 +272,7 @@ PROP = Property(
               essential=["twins transmitting at the same time", "busy period >=3 packets from >=2 flows"]),
         Facet("monitor", monitor_strategy, run_monitor, quick=500, thorough=3000,
               essential=["sample while a packet of the flow is in service", "sample with a queue",
-                         "flow first sampled, then polled, then sends its first packet"])],
+                         "flow first sampled, then polled, then sends its first packet", "flow ids beyond the small-integer cache"])],
     assumptions=["workloads use configured flows only, positive priorities/weights/vticks (others make the loops spin; outside "
                  "the statement)"],
 )
